@@ -266,12 +266,19 @@ class Explorer:
         """body(path) -> result; yields (path, kind, payload) for each completed path."""
         self.work = [[]]
         n = 0
+        import os as _os
+        import time as _time
+        budget = float(_os.environ.get("PYVC_WALL_BUDGET_S", "0") or 0)
+        t_begin = _time.time()
         while self.work:
             trail = self.work.pop()
             p = Path(self, trail)
             n += 1
             if n > self.max_paths:
                 raise Undecided("more than %d paths" % self.max_paths)
+            if budget and _time.time() - t_begin > budget:
+                # stop gracefully: what was explored keeps its verdicts, the rest is undecided (never a violation)
+                raise Undecided("exploration wall budget of %.0fs used up after %d paths (%d pending)" % (budget, n - 1, len(self.work) + 1))
             try:
                 res = body(p)
                 self.stats["paths"] += 1
@@ -771,7 +778,7 @@ class Interp:
             self.p.assume(term >= 0)
             if isinstance(c.n, int):
                 self.p.assume(term < 256 ** c.n)
-                if c.n <= 8:        # definitional link between the integer value and the bytes
+                if c.n <= getattr(self, "int_bytes_expand", 8):        # definitional link between the integer value and the bytes
                     bs = [self.ob_at(c, j) for j in range(c.n)]
                     order = bs if endian == "little" else list(reversed(bs))
                     self.p.assume(term == z3.Sum([b * I(256 ** j) for j, b in enumerate(order)]))
@@ -1064,9 +1071,11 @@ class Interp:
             if k > 64:
                 return chunks_to_B([x]) == chunks_to_B([y])
             return z3.And([self._bt(self.chunk_byte(x, j)) == self._bt(self.chunk_byte(y, j)) for j in range(k)])
-        # IB / const
-        vx = self._piece_int(x, "little")
-        vy = self._piece_int(y, "little")
+        # IB / const: compare in the byte order of an integer-encoded side (same width, so equal bytes <=> equal values);
+        # two encodings of the same order then compare their terms directly instead of two byte-sum expansions
+        end = x.end if isinstance(x, IB) else (y.end if isinstance(y, IB) else "little")
+        vx = self._piece_int(x, end)
+        vy = self._piece_int(y, end)
         r = z3.simplify(vx == vy)
         if z3.is_true(r):
             return True
